@@ -279,7 +279,7 @@ def stmt(o, s, ind):
         else:
             o.emit(s["n"] + (" " + ", ".join(expr(a) for a in s["args"]) if s["args"] else ""), sid, ind)
     elif k == "dim":
-        text = "DIM " + ("SHARED " if s.get("shared") else "")
+        text = ("REDIM " if s.get("redim") else "DIM ") + ("SHARED " if s.get("shared") and not s.get("noshared") else "")
         name = s["n"]
         if s["dims"]:
             ds = []
@@ -291,7 +291,10 @@ def stmt(o, s, ind):
             arr = "(" + ", ".join(ds) + ")"
         else:
             arr = ""
-        if s["t"] == "U":
+        if s.get("bare_redim"):
+            # REDIM of an existing dynamic array without repeating its type
+            text += name + (SUFFIX[s["t"]] if not s.get("fix", 0) and s["t"] != "U" and not s.get("extended") else "") + arr
+        elif s["t"] == "U":
             text += name + arr + " AS " + s["ty"]
         elif s.get("fix", 0) > 0:
             text += name + arr + " AS STRING * " + (s.get("fixtext") or str(s["fix"]))
